@@ -164,14 +164,12 @@ FUNCS = {
     'response':   (TM, 'QXmppTransferManager::ibb', 'ibbResponseReceived', 'ibbResponseReceived', 'QXmppTransferManager', 'response.spec'),
 }
 
+# The job a handler works on is captured where the real job-list look-up returns it (gh_job), not in the handler: the handler
+# contracts therefore do not depend on how a handler obtains the job (directly, or through a helper a refactoring extracted).
 # entry hooks anchor on the opening brace of the function body (the only unindented '{' line of a lowered function)
 HOOKS = [
-    {'id': 'lookup_sid_found', 'fn': 'getIncomingJobBySid', 'before': r'^\s*return job;', 'emit': 'gh_found_idx = __i0;'},
-    {'id': 'lookup_req_found', 'fn': 'getJobByRequestId', 'before': r'^\s*return job;', 'emit': 'gh_found_idx = __i0;'},
-    {'id': 'data_job', 'fn': 'ibbDataIqReceived', 'after': r'^\s*QXmppTransferJob\s*\*\s*job = getIncomingJobBySid\(', 'emit': 'gh_job = job;'},
-    {'id': 'open_job', 'fn': 'ibbOpenIqReceived', 'after': r'^\s*QXmppTransferJob\s*\*\s*job = getIncomingJobBySid\(', 'emit': 'gh_job = job;'},
-    {'id': 'close_job', 'fn': 'ibbCloseIqReceived', 'after': r'^\s*QXmppTransferJob\s*\*\s*job = getIncomingJobBySid\(', 'emit': 'gh_job = job;'},
-    {'id': 'response_job', 'fn': 'ibbResponseReceived', 'after': r'^\s*QXmppTransferJob\s*\*\s*job = getOutgoingJobByRequestId\(', 'emit': 'gh_job = job;'},
+    {'id': 'lookup_sid_found', 'fn': 'getIncomingJobBySid', 'before': r'^\s*return job;', 'emit': 'gh_found_idx = __i0; gh_job = job;'},
+    {'id': 'lookup_req_found', 'fn': 'getJobByRequestId', 'before': r'^\s*return job;', 'emit': 'gh_found_idx = __i0; gh_job = job;'},
     {'id': 'block_sent', 'fn': 'ibbResponseReceived', 'after': r'^\s*ev_send_data\(&dataIq\);', 'emit': 'job->d->gh_blocks++;'},
     {'id': 'handed_to_writeData', 'fn': 'QXmppTransferIncomingJob_writeData', 'after': r'^\{$',
      'emit': 'if (gh_wd_calls < 1000) gh_wd_calls++; gh_wd_job = self; gh_wd_data = data; self->d->gh_blocks++;'},
@@ -189,6 +187,7 @@ class Unit:
         self.b = Builder('C19', work, self.prof)
         self.text = {}
         self.spec = {}
+        self.helpers = {}     # C name -> text of auto-lowered repository helpers
 
     def lower(self, key):
         if key in self.text:
@@ -196,6 +195,15 @@ class Unit:
         src, filt, name, cname, this, specf = FUNCS[key]
         sp = self.b.spec(specf) if specf else None
         t = self.b.lower(Target(src, filt, name, cname, this=this, lowerer_cls=C19Lowerer), sp)
+        # repository helpers the framework lowered on its own (vlib.unit: unknown callee of a modelled class, e.g. a look-up a
+        # refactoring extracted) are kept apart: the rule for such a helper exists from then on, so a second handler that calls it
+        # gets no copy of its text -- assemble() places every collected helper that a file refers to
+        if '/*@END-HELPERS@*/\n' in t:
+            hs, t = t.split('/*@END-HELPERS@*/\n', 1)
+            for blk in re.split(r'(?m)^(?=static [^\n;]*\bauto_\w+\()', hs):
+                m = re.match(r'static [^\n;]*\b(auto_\w+)\(', blk)
+                if m:
+                    self.helpers.setdefault(m.group(1), blk.rstrip('\n') + '\n')
         self.text[key] = t
         self.spec[key] = sp
         return t
@@ -222,14 +230,24 @@ class Unit:
         body = ''.join(self.lower(k) + '\n' for k in inline)
         pro = ''.join(b.prototype(self.lower(k)) for k in protos)
         mtxt = self.lower(main)
+        auto, used = '', []
+        for _ in range(4):   # helpers may refer to helpers: callees first
+            more = [h for h in self.helpers if h not in used and re.search(r'\b%s\(' % h, mtxt + auto)]
+            if not more:
+                break
+            used += more
+            auto = ''.join(self.helpers[h] for h in more) + auto
         for e in ENUMS:
             b.need_enums.setdefault((os.path.join(REPO, TM), ()), {}).setdefault(e, set())
         c = '#include "opaque.h"\n' + self.prof.literal_ids.table() + b.subst(rd('types.h')) + b.context() + '\n' + self.records() + b.subst(rd('model.h')) + \
-            '/* ---- contracts of replaced callees ---- */\n' + pro + '/* ---- real helpers, inlined ---- */\n' + body + '/* ---- function under contract ---- */\n' + mtxt + '\n' + harness
+            '/* ---- contracts of replaced callees ---- */\n' + pro + '/* ---- real helpers, inlined ---- */\n' + body + \
+            ('/* ---- repository helpers lowered automatically (real code, inlined) ---- */\n' + auto if auto else '') + '/* ---- function under contract ---- */\n' + mtxt + '\n' + harness
         return b.write(name + '.c', c), c
 
 
 GETTERS_IQ = ['seq', 'd_sid', 'd_payload']
+# real code every receiver handler (or a look-up helper extracted from the handlers) may call
+RECV_INLINE = ['method', 'state', 'lookup_sid']
 
 
 def build(work, tier):
@@ -263,17 +281,15 @@ def build(work, tier):
         return p
 
     # ---------------------------------------------------------------- receiver: data block
-    for suffix, defs, fid, note in (('', ['FINDING_EXCLUDED'], None, 'both job counters in 0..65535 (fewer than 65536 blocks accepted so far)'),
-                                    ('_after_65536_blocks', ['FINDING_ONLY'], 'C19-ibb-seq-wrap', 'some job counter in 65536..INT_MAX-1 (65536 or more blocks accepted so far)')):
-        add('ibbDataIqReceived' + suffix, 'data', ['method', 'state', 'lookup_sid'] + GETTERS_IQ, ['writedata'],
-            'const QXmppIbbDataIq *iq; ibbDataIqReceived(&g_mgr, iq);',
-            'every job list (witness element; lookup loop closed by its loop contract), every sender/session/sequence number, ' + note,
-            loop_fn='lookup_sid', finding=fid, defines=defs)
+    add('ibbDataIqReceived', 'data', RECV_INLINE + GETTERS_IQ, ['writedata'],
+        'const QXmppIbbDataIq *iq; ibbDataIqReceived(&g_mgr, iq);',
+        'every job list (witness element; lookup loop closed by its loop contract), every sender/session/sequence number, counter in 0..INT_MAX-1',
+        loop_fn='lookup_sid')
     # ---------------------------------------------------------------- receiver: open / close
-    add('ibbOpenIqReceived', 'open', ['method', 'setstate', 'lookup_sid', 'o_sid', 'o_bs'], [],
+    add('ibbOpenIqReceived', 'open', RECV_INLINE + ['setstate', 'o_sid', 'o_bs'], [],
         'const QXmppIbbOpenIq *iq; ibbOpenIqReceived(&g_mgr, iq);',
         'every job list (witness element), every sender/session/block size', loop_fn='lookup_sid')
-    add('ibbCloseIqReceived', 'close', ['method', 'lookup_sid', 'c_sid'], ['checkdata', 'terminate'],
+    add('ibbCloseIqReceived', 'close', RECV_INLINE + ['c_sid'], ['checkdata', 'terminate'],
         'const QXmppIbbCloseIq *iq; ibbCloseIqReceived(&g_mgr, iq);',
         'every job list (witness element), every sender/session; checkData through its verified contract', loop_fn='lookup_sid')
     # ---------------------------------------------------------------- sender
@@ -320,8 +336,8 @@ def build(work, tier):
             'delivery of the progress/stateChanged/finished signals (Qt event loop)',
         ],
         'explanation': 'Receiver (ibbOpenIqReceived, ibbDataIqReceived, ibbCloseIqReceived), sender (ibbResponseReceived), the two job-list look-ups, writeData, checkData, terminate and the 16-bit '
-                       'sequence accessors are lowered from /repo on every run and verified against contracts taken from XEP-0047 and the property statement. One open finding: the receiver compares the '
-                       '16-bit seq with an int counter that is never reduced mod 65536 (KNOWN-FINDING C19-ibb-seq-wrap, natively reproduced by units/C19/replay_seqwrap.cpp).',
+                       'sequence accessors are lowered from /repo on every run and verified against contracts taken from XEP-0047 and the property statement. Finding C19-ibb-seq-wrap (receiver compared the 16-bit seq '
+                       'with an int counter never reduced mod 65536; natively reproduced by units/C19/replay_seqwrap.cpp) is fixed in /repo; the data handler is verified for the whole counter range.',
     }
 
 
